@@ -31,18 +31,6 @@ thread_local! {
     static STATE: RefCell<AnchorState> = RefCell::new(AnchorState::default());
 }
 
-pub(crate) fn reset() {
-    STATE.with(|state| {
-        let mut s = state.borrow_mut();
-        s.stack.clear();
-        s.store.rc.clear();
-        s.store.arc.clear();
-        s.store.rc_recursive.clear();
-        s.store.arc_recursive.clear();
-        s.in_progress.clear();
-    });
-}
-
 pub(crate) fn with_anchor_context<R>(
     kind: AnchorKind,
     anchor: Option<usize>,
@@ -245,14 +233,22 @@ pub(crate) fn get_arc_recursive<T: Any + Send + Sync>(id: usize) -> Result<Optio
 }
 
 pub(crate) fn with_document_scope<R>(f: impl FnOnce() -> R) -> R {
-    reset();
-    struct ResetGuard;
-    impl Drop for ResetGuard {
+    // A document starts from an empty table, and whatever it leaves behind is discarded. The
+    // caller's own state is put aside and comes back afterwards: a parse that runs inside a user
+    // `Deserialize` implementation must neither see nor disturb the document around it.
+    let saved = STATE.with(|state| std::mem::take(&mut *state.borrow_mut()));
+    let _fallback = crate::de_error::MissingFieldLocationGuard::cleared();
+    struct RestoreGuard(Option<AnchorState>);
+    impl Drop for RestoreGuard {
         fn drop(&mut self) {
-            reset();
+            if let Some(prev) = self.0.take() {
+                // Drop the document's leftovers outside of the borrow.
+                let leftovers = STATE.with(|state| std::mem::replace(&mut *state.borrow_mut(), prev));
+                drop(leftovers);
+            }
         }
     }
-    let guard = ResetGuard;
+    let guard = RestoreGuard(Some(saved));
     let result = f();
     drop(guard);
     result
